@@ -2,6 +2,7 @@ package swapsim
 
 import (
 	"fmt"
+	"strings"
 	"testing"
 
 	"pgregory.net/rapid"
@@ -28,9 +29,16 @@ func TestC05BitcoinHtlcExpiresBeforeRefund(t *testing.T) {
 		if err := s.A.Boot(); err != nil {
 			t.Fatal(err)
 		}
-		cltv := rapid.OneOf(rapid.SampledFrom([]int64{0, 9, 18, 144, 400, 500, 502, 503, 504, 505, 600}), rapid.Int64Range(0, 600)).Draw(t, "invoiceCLTV")
+		// corner mode: everything aimed at the one region where the HTLC can reach the refund height - invoice
+		// CLTV and payment height both near their maxima, the opening confirmed at or before the start,
+		// and a retry loop that walks across the boundary in small steps while blocks arrive
+		corner := rapid.IntRange(0, 4).Draw(t, "corner") == 0
+		cltv := rapid.OneOf(rapid.SampledFrom([]int64{0, 9, 18, 144, 400, 500, 502, 503, 504, 505, 600}), rapid.Int64Range(0, 504), rapid.Int64Range(300, 504), rapid.Int64Range(0, 600)).Draw(t, "invoiceCLTV")
+		if corner {
+			cltv = rapid.SampledFrom([]int64{504, 504, 503, 502, 500, 496}).Draw(t, "cornerCLTV")
+		}
 		// when does the maker broadcast relative to the taker's start?
-		early := out && rapid.IntRange(0, 2).Draw(t, "earlyBroadcast") == 0
+		early := out && (rapid.IntRange(0, 2).Draw(t, "earlyBroadcast") == 0 || corner)
 		earlyBlocks := uint32(0)
 		var payreq, hash, txid string
 		var vout uint32
@@ -52,24 +60,69 @@ func TestC05BitcoinHtlcExpiresBeforeRefund(t *testing.T) {
 		if err := s.negotiate(freshId(t)); err != nil {
 			t.Skip("negotiation failed: " + err.Error())
 		}
-		start := s.W.Height("btc")
+		start0 := s.W.Height("btc")
 		if rec := recOf(s.A, s.Id); rec != nil && rec.Data.StartingBlockHeight != 0 {
-			start = rec.Data.StartingBlockHeight
+			start0 = rec.Data.StartingBlockHeight
+		}
+		// the taker may be down for a while before the announcement reaches it (the maker retransmits)
+		restartWaiting := rapid.SampledFrom([]string{"no", "no", "no", "before-broadcast", "after-broadcast"}).Draw(t, "restartWhileWaiting")
+		downBlocks := uint32(0)
+		down := func() {
+			downBlocks = rapid.SampledFrom([]uint32{0, 1, 11, 100, 300, 450}).Draw(t, "downBlocks")
+			s.A.Kill()
+			s.W.Mine("btc", downBlocks)
+			if err := s.A.Boot(); err != nil {
+				t.Fatal(err)
+			}
+			s.A.Recover()
+		}
+		if restartWaiting == "before-broadcast" {
+			down()
 		}
 		if !early {
 			// late broadcast: somewhere inside the window
-			s.W.Mine("btc", rapid.SampledFrom([]uint32{0, 0, 1, 2, 100, 400, 498, 499, 500, 501}).Draw(t, "broadcastDelay"))
+			delay := rapid.SampledFrom([]uint32{0, 0, 0, 1, 2, 100, 400, 498}).Draw(t, "broadcastDelay")
+			if corner {
+				delay = 0
+			}
+			s.W.Mine("btc", delay)
 			broadcast()
+		}
+		if restartWaiting == "after-broadcast" {
+			s.W.Mine("btc", rapid.SampledFrom([]uint32{0, 1, 3}).Draw(t, "confBeforeDown"))
+			down()
+		}
+		if rec := recOf(s.A, s.Id); rec == nil || isTerminal(rec.Current) {
+			t.Skip("swap ended while the taker was down")
+		}
+		// the height the node itself measures from (used only to aim the generator at the node's own
+		// boundary; the oracle below uses the chain's ground truth)
+		start := start0
+		if rec := recOf(s.A, s.Id); rec != nil && rec.Data.StartingBlockHeight != 0 {
+			start = rec.Data.StartingBlockHeight
 		}
 		s.announce(payreq, txid, vout)
 		// confirmations arrive, the callback is delivered some time later
 		s.W.Mine("btc", rapid.SampledFrom([]uint32{1, 3, 3, 3, 10}).Draw(t, "confBlocks"))
-		target := rapid.SampledFrom([]int64{0, 1, 100, 400, 498, 500, 501, 502, 503, 504, 505}).Draw(t, "payOffset")
+		target := rapid.SampledFrom([]int64{0, 1, 1, 100, 300, 400, 480, 490, 498, 500, 503, 504, 505}).Draw(t, "payOffset")
+		if corner {
+			target = 1008 - cltv - int64(rapid.IntRange(9, 22).Draw(t, "cornerBelow"))
+		} else if rapid.Bool().Draw(t, "aimAtBoundary") {
+			// aim at the line height + cltv = start + csv, where the HTLC begins to overlap the refund
+			// (or at the end of the payment window when that comes first)
+			target = min(1008-cltv, 505) - int64(rapid.IntRange(0, 16).Draw(t, "belowBoundary"))
+			if target < 0 {
+				target = 0
+			}
+		}
 		if h := int64(s.W.Height("btc")); int64(start)+target > h {
 			s.W.Mine("btc", uint32(int64(start)+target-h))
 		}
 		// failing attempts while more blocks arrive
 		nfail := rapid.IntRange(0, 3).Draw(t, "failingAttempts")
+		if corner {
+			nfail = rapid.IntRange(3, 6).Draw(t, "cornerFailingAttempts")
+		}
 		plan := make([]sim.PayOutcome, nfail)
 		for i := range plan {
 			plan[i] = sim.PayFailClean
@@ -78,7 +131,11 @@ func TestC05BitcoinHtlcExpiresBeforeRefund(t *testing.T) {
 		if nfail > 0 {
 			var mines []uint32
 			for i := 0; i <= nfail; i++ {
-				mines = append(mines, rapid.SampledFrom([]uint32{0, 0, 1, 2, 3}).Draw(t, "mineDuringRetry"))
+				if corner {
+					mines = append(mines, rapid.SampledFrom([]uint32{1, 2, 3, 4}).Draw(t, "cornerMine"))
+					continue
+				}
+				mines = append(mines, rapid.SampledFrom([]uint32{0, 0, 1, 2, 3, 6, 13}).Draw(t, "mineDuringRetry"))
 			}
 			// the first two height queries belong to the confirmation path, not the retry loop
 			s.A.MineOnHeightCall["btc"] = append([]uint32{0}, mines...)
@@ -117,13 +174,46 @@ func TestC05BitcoinHtlcExpiresBeforeRefund(t *testing.T) {
 		}
 		nt := attempts > 0 && (int64(s.W.Height("btc"))-int64(start) >= 400 || cltv >= 400 || confHeight <= start)
 		cls := []string{fmt.Sprintf("attempts:%d", min(attempts, 3))}
+		if attempts == 0 {
+			why := "no-record"
+			if rec := recOf(s.A, s.Id); rec != nil {
+				why = string(rec.Current)
+				if rec.Data.LastErrString != "" {
+					why += ":" + strings.TrimRight(firstWords(rec.Data.LastErrString, 3), "0123456789,: ")
+				}
+			}
+			cls = append(cls, "no-attempt:"+why)
+		}
+		if restartWaiting != "no" {
+			cls = append(cls, "restart-while-waiting:"+restartWaiting)
+			if downBlocks >= 11 && attempts > 0 {
+				cls = append(cls, "paid-after-long-downtime")
+			}
+		}
+		if corner {
+			cls = append(cls, "corner")
+			if attempts > 1 {
+				cls = append(cls, "corner-with-retries")
+			}
+		}
+		if nfail > 0 && attempts > 1 {
+			cls = append(cls, "retried-while-blocks-arrived")
+		}
 		if confHeight <= start {
 			cls = append(cls, "confirmed-before-start")
 		}
 		if attempts > 0 && worst <= 8 {
 			cls = append(cls, "margin<=8")
 		}
-		col.Case(fmt.Sprintf("lnd=%v out=%v cltv=%d early=%v/%d target=%d nfail=%d conf=%d start=%d", lnd, out, cltv, early, earlyBlocks, target, nfail, confHeight, start), nt,
+		col.Case(fmt.Sprintf("lnd=%v out=%v cltv=%d early=%v/%d target=%d nfail=%d conf=%d start=%d rw=%s/%d", lnd, out, cltv, early, earlyBlocks, target, nfail, confHeight, start, restartWaiting, downBlocks), nt,
 			map[string]interface{}{"lnd": lnd, "swap_out": out, "invoice_cltv": cltv, "start": start, "conf_height": confHeight, "pay_offset": target, "attempts": attempts, "worst_margin": worst}, cls...)
 	})
+}
+
+func firstWords(s string, n int) string {
+	w := strings.Fields(s)
+	if len(w) > n {
+		w = w[:n]
+	}
+	return strings.Join(w, " ")
 }
